@@ -344,7 +344,7 @@ def graphwalk_bin():
 def graph_walks(dot_path, max_len=200, seed=1):
     """Edge-covering walks of a TLC dot dump as lists of (action name, [args]).  Returns (walks, n_edges)."""
     out = dot_path + ".walks"
-    rc, txt = sh([graphwalk_bin(), dot_path, out, str(max_len), str(seed)], timeout=1200)
+    rc, txt = sh([graphwalk_bin(), dot_path, out, str(max_len), str(seed)], timeout=5400)
     if rc not in (0, 1):
         raise RuntimeError("graphwalk failed: " + txt)
     memo = {}
